@@ -53,7 +53,10 @@ def showNats (l : List Nat) : String := "[" ++ ",".intercalate (l.map toString) 
 
 /-! ## waterfall -/
 
-inductive TMode | sync | go | later | never | twice | goTwice | panicBefore | panicAfter
+/-- `unset`: the entry of the task list is nil (a step of a conditionally assembled chain that was not set). The
+call `c.tasks[index](…)` in `invokeTask` panics inside the closure (recovered by `doTask`): in the chain model this
+is an invoked task without a body that never completes. -/
+inductive TMode | sync | go | later | never | twice | goTwice | panicBefore | panicAfter | unset
   deriving DecidableEq, Repr
 
 structure TaskSpec where
@@ -69,6 +72,7 @@ def parseTask (s : String) : Option TaskSpec :=
     let mode : Option TMode := match m with
       | 's' => some .sync | 'g' => some .go | 'l' => some .later | 'n' => some .never
       | 't' => some .twice | 'v' => some .goTwice | 'p' => some .panicBefore | 'q' => some .panicAfter
+      | 'x' => some .unset
       | _ => none
     match mode, takeDigits rest 0 false with
     | some mode, some (v, []) =>
@@ -122,10 +126,12 @@ def WSt.updChain (s : WSt) (c : WChain) : WSt :=
 
 /-- a callback call of task `i` of chain `c` (posts `invokeCallback`); dropped when the scheduler is stopped -/
 def complete (s : WSt) (c : WChain) (i : Nat) (e : Bool) (r : List Nat) : WSt :=
-  if s.stopped then s
-  else match Waterfall.fire c.core (.complete i e r) with
-    | none => s
-    | some core' => { (s.updChain { c with core := core' }) with gq := s.gq ++ [c.id] }
+  -- `Waterfall.fireS`: the chain composed with `Post` on a scheduler that may have been stopped
+  match Waterfall.fireS { core := c.core, stopped := s.stopped } (.inner (.complete i e r)) with
+  | none => s
+  | some sc =>
+    if sc.refused > 0 then s   -- `Post` on the closed channel returned nil: nothing was queued
+    else { (s.updChain { c with core := sc.core }) with gq := s.gq ++ [c.id] }
 
 /-- consumer loop: run queued closures until the channel is empty -/
 def drainW : Nat → WSt → List String → WSt × List String
@@ -148,7 +154,8 @@ def drainW : Nat → WSt → List String → WSt × List String
           let s := s.updChain c'
           match core'.hist.head? with
           | some (.task i a) =>
-            let out := out ++ [showEv id (.task i a)]
+            -- an unset step has no body: the invocation is attempted (and panics under `doTask`'s recover), nothing is seen
+            let out := if (c.specs[i]?.map (·.mode)) == some .unset then out else out ++ [showEv id (.task i a)]
             match c.specs[i]? with
             | none => drainW fuel s out
             | some t =>
@@ -161,7 +168,7 @@ def drainW : Nat → WSt → List String → WSt × List String
                   | some c1 => complete s1 c1 i t.err t.result2
                   | none => s1
                 | .later => { s with pend := s.pend ++ [⟨id, i, t.err, r⟩] }
-                | .never | .panicBefore => s
+                | .never | .panicBefore | .unset => s
               drainW fuel s out
           | some (.final e a) => drainW fuel s (out ++ [showEv id (.final e a)])
           | _ => drainW fuel s out
@@ -828,6 +835,20 @@ def SpecS.setChain (s : SpecS) (c : SpChain) : SpecS :=
 def SpChain.atMostOnce (c : SpChain) : Bool := c.calls.all (· ≤ 1)
 def SpChain.exactlyOnce (c : SpChain) : Bool := c.calls.all (· = 1)
 
+/-- the chain has reached an unset (nil) step: all earlier tasks were invoked, the last one completed without an error,
+and the next entry of the task list is nil. The invocation of that step is attempted and panics inside the posted
+closure, i.e. it is an invoked task that never completes (the hypothesis of "final exactly once" does not hold). -/
+def SpChain.atUnsetStep (c : SpChain) : Bool :=
+  match c.specs[c.args.length]? with
+  | some t =>
+    t.mode == .unset &&
+      (match c.args.length with
+       | 0 => c.live
+       | j + 1 => (match c.specs[j]?, c.calls[j]? with
+         | some tj, some cj => cj ≥ 1 && !tj.err
+         | _, _ => false))
+  | none => false
+
 def bump (l : List Nat) (i k : Nat) : List Nat := l.mapIdx fun j v => if j = i then v + k else v
 
 inductive WEv | task (id i : Nat) (args : List Nat) (g : String) | final (id : Nat) (e : Bool) (args : List Nat) (g : String)
@@ -861,8 +882,17 @@ def specWEv (s : SpecS) : WEv → Except String SpecS
     match s.chains.find? (·.id = id) with
     | none => throw (viol "task-out-of-order" s!"task of unknown chain {id}")
     | some c =>
+      -- the attempted invocation of an unset (nil) step leaves no event; it stalls the chain unless an earlier task
+      -- completed a second time (outside the at-most-once hypothesis), whose extra callback moves the cursor past it
+      let skipped := i - c.args.length
+      let c := if !c.atMostOnce && i > c.args.length
+            && (List.range skipped).all (fun k => (c.specs[c.args.length + k]?.map (·.mode)) == some .unset) then
+          { c with args := c.args ++ List.replicate skipped [], calls := c.calls ++ List.replicate skipped 0 }
+        else c
       if i ≠ c.args.length || i ≥ c.specs.length then
         throw (viol "task-out-of-order" s!"chain {id}: task {i} invoked, expected task {c.args.length} of {c.specs.length}")
+      if (c.specs[i]?.map (·.mode)) == some .unset then
+        throw (viol "task-out-of-order" s!"chain {id}: step {i} is unset (nil) but a task body ran in its place")
       if c.atMostOnce then
         if c.finals > 0 then throw (viol "task-after-final" s!"chain {id}: task {i} invoked after final")
         match i with
@@ -913,7 +943,7 @@ def specWEv (s : SpecS) : WEv → Except String SpecS
 def specWEnd (s : SpecS) : Except String SpecS := do
   if s.stopped || s.parked then return s
   for c in s.chains do
-    if c.live && c.exactlyOnce && c.finals ≠ 1 then
+    if c.live && c.exactlyOnce && !c.atUnsetStep && c.finals ≠ 1 then
       throw (viol "final-missing" s!"chain {c.id}: every invoked task completed exactly once, final called {c.finals} times")
   return s
 
@@ -1105,7 +1135,7 @@ def postsPanic (ws : List String) : Bool :=
     | some cmds => cmds.any fun (_, ks) => ks.any (· = .panics)
     | none => false
   | some "chain" => match parseTasks ws with
-    | some ts => ts.any fun t => t.mode = .panicBefore || t.mode = .panicAfter
+    | some ts => ts.any fun t => t.mode = .panicBefore || t.mode = .panicAfter || t.mode = .unset
     | none => false
   | some "mpost" => (kv ws "x").isSome
   | _ => false
